@@ -452,6 +452,10 @@ func (m *Machine) selectStmt(st *State, fr *Frame, x *ssa.Select) {
 				m.assumeWellFormed(s, elem, v)
 				okv := c.Fresh("selok", BoolSort)
 				s.assume(c.Implies(c.Not(okv), m.chanClosed(s, chans[i])))
+				if m.isDoneChan(chans[i]) {
+					// nothing is ever sent on a context's Done channel: a receive completes only once it is closed
+					s.assume(m.chanClosed(s, chans[i]))
+				}
 				ok = okv
 				recvVals = append(recvVals, v)
 			} else {
@@ -684,4 +688,8 @@ func (m *Machine) mapSnapOf(st *State, t types.Type, ref *Term) *MapSnap {
 		ms.Vals = append(ms.Vals, m.ctx.Select(a, ref))
 	}
 	return ms
+}
+
+func (m *Machine) isDoneChan(ch *Term) bool {
+	return ch.op == "app" && ch.name == sanitize("ctxDone")
 }
